@@ -746,3 +746,18 @@ def seed_aliases(idx, cls, store, selfkey="self"):
 def opt(idx, cls, name):
     """[FuncInfo] of cls.name when it exists, else [] — for helpers that are listed as analysed but are not themselves an anchor"""
     return [idx.method(cls, name)] if idx.has_cls(cls) and idx.has_method(cls, name) else []
+
+
+def resolved_text(fi, expr):
+    """source text of an attribute chain with its root local replaced by what it stands for (`cp = self.matcher.csvpath; cp.is_valid` reads
+    as `self.matcher.csvpath.is_valid`), applied repeatedly along the chain"""
+    parts = []
+    n = expr
+    while isinstance(n, ast.Attribute):
+        parts.append(n.attr)
+        n = n.value
+    if isinstance(n, ast.Name):
+        r = resolve_local(fi, n)
+        if r is not n and not (isinstance(r, ast.Name) and r.id == n.id):
+            return ".".join([resolved_text(fi, r)] + list(reversed(parts)))
+    return unparse(expr)
